@@ -39,3 +39,54 @@ Theorem andersoncd_returned_point_consistent :
   consI cfg X (o_w out) (o_Xw out).
 Proof. intros A. exact (@andersoncd_preserves_consistency A). Qed.
 Print Assumptions andersoncd_returned_point_consistent.
+
+(* ---------------------------------------------------------------- GramCD ---------------------------------- *)
+Require Import SK.Lemmas.GramEpoch SK.Gen.KernGram SK.Skel.Generic SK.Skel.GramCD SK.Skel.GramCDProofs.
+
+(* kernel: the regenerated _gram_cd_epoch keeps grad = Q w - q (Cons p Q w (-q) grad) for ANY prox and either
+   selection strategy, never divides by a zero diagonal entry, and returns the score of the point it leaves *)
+Theorem gram_epoch_keeps_gradient_and_returns_score :
+  forall (score : list R -> list R -> list Z -> res (list (Ext R))) (prox_1d : R -> R -> Z -> res R)
+         p Q c w grad greedy w' grad' opt,
+  wf_X p Q -> length w = length Q -> Cons p Q w c grad ->
+  @_gram_cd_epoch R _ score prox_1d Q w grad greedy = Ok (w', grad', opt) ->
+  Cons p Q w' c grad' /\ length w' = length w /\ score w' grad' (zrange 0 (zlen w')) = Ok opt.
+Proof. exact gram_epoch_spec. Qed.
+Print Assumptions gram_epoch_keeps_gradient_and_returns_score.
+
+(* solver: a stop_crit <= tol returned by the GramCD skeleton (with the regenerated kernel inside) is the maximum
+   score of the RETURNED w against the TRUE gradient Q w - q -- every penalty, budget, strategy, start, with or
+   without extrapolation (for any accelerator returning consistent pairs from consistent pairs) *)
+Theorem gramcd_reported_convergence_is_certificate :
+  forall {A} score prox value greedy (cfg : @gconfig R) (D : @gdata R) (acc_init : A) acc_step,
+  let p := length (gd_q D) in let negq := map Ropp (gd_q D) in
+  wf_X p (gd_Q D) -> length (gd_Q D) = p ->
+  forall AI : A -> Prop, AI acc_init ->
+  (forall a w g w' g' ext a', AI a -> Cons p (gd_Q D) w negq g -> length w = p ->
+      acc_step a w g = Ok (w', g', ext, a') ->
+      AI a' /\ (ext = true -> Cons p (gd_Q D) w' negq g' /\ length w' = p)) ->
+  forall w_init out, match w_init with Some w => length w = p | None => True end ->
+  gsolve cfg (gram_kernels score prox value greedy D acc_init acc_step) D w_init = Ok out ->
+  ele (g_stop out) (gc_tol cfg) = true ->
+  let w := gs_w (g_s out) in let g := gs_grad (g_s out) in
+  Cons p (gd_Q D) w negq g /\ length w = p /\
+  exists opt, score w g (zrange 0 (zlen w)) = Ok opt /\ emax_list opt = Ok (g_stop out).
+Proof. intros A. exact (@gram_certificate A). Qed.
+Print Assumptions gramcd_reported_convergence_is_certificate.
+
+(* generic outer loop (GramCD, GroupBCD, MultiTaskBCD, ProxNewton, GroupProxNewton skeletons are instances):
+   a returned value <= tol is the criterion of the returned state; a zero budget returns +inf *)
+Theorem generic_stop_is_criterion_of_returned_state :
+  forall {F} `{Num F} {St C} (tol : F) (crit : St -> res (C * Ext F)) (body : St -> C -> Ext F -> res St)
+         (objective : St -> res (Ext F)) max_iter s0 out,
+  grun tol crit body objective max_iter s0 = Ok out -> ele (g_stop out) tol = true ->
+  exists c, crit (g_s out) = Ok (c, g_stop out).
+Proof. intros F H St C. exact (@grun_stop_is_criterion F H St C). Qed.
+Print Assumptions generic_stop_is_criterion_of_returned_state.
+
+Theorem generic_zero_budget_reports_infinity :
+  forall {F} `{Num F} {St C} (tol : F) (crit : St -> res (C * Ext F)) (body : St -> C -> Ext F -> res St)
+         (objective : St -> res (Ext F)) s0 out,
+  grun tol crit body objective 0 s0 = Ok out -> g_stop out = PInf /\ g_obj out = nil /\ g_s out = s0.
+Proof. intros F H St C. exact (@grun_zero_budget F H St C). Qed.
+Print Assumptions generic_zero_budget_reports_infinity.
